@@ -290,6 +290,12 @@ func (s *state) step(b *ssa.BasicBlock, ii int, in ssa.Instruction) bool {
 		s.doReturn(rs, d)
 		return false
 	case *ssa.Panic:
+		if u.ct != nil && u.ct.neverReturns && !u.ct.trusted {
+			// a function claimed never to return: ending in a panic is the specified behaviour
+			u.covers = append(u.covers, &oblig{name: u.name() + "#cover.panic", kind: "cover", pc: append([]string(nil), s.pc...), goal: "false", clause: "panic reachable", path: u.npaths})
+			s.endPath()
+			return false
+		}
 		if len(s.frames) == 0 && u.ct.panicsIf != nil {
 			// reaching a panic is the specified behaviour on this path
 			s.endPath()
